@@ -148,3 +148,98 @@ class OneShotPolicy(asyncio.DefaultEventLoopPolicy):
             a[1].loop = loop
             return loop
         return super().new_event_loop()
+
+
+# ---------------------------------------------------------------------------
+# Zarr's private IO loop, made deterministic
+# ---------------------------------------------------------------------------
+
+class _DetFuture(asyncio.Future):
+    _det_hash = 0
+
+    def __hash__(self):
+        return self._det_hash
+
+    def __eq__(self, other):
+        return self is other
+
+
+class _DetTask(asyncio.Task):
+    _det_hash = 0
+
+    def __hash__(self):
+        return self._det_hash
+
+    def __eq__(self, other):
+        return self is other
+
+
+class _InlineExecutor(__import__("concurrent.futures").futures.ThreadPoolExecutor):
+    """Runs submitted calls immediately in the submitting (IO-loop) thread.
+
+    Zarr's codecs compress each chunk through ``asyncio.to_thread``; with a real
+    pool the completion order of the chunks of one array call - and therefore the
+    order of the store writes - is decided by the OS scheduler."""
+
+    def submit(self, fn, /, *args, **kwargs):
+        import concurrent.futures as _cf
+
+        f = _cf.Future()
+        try:
+            f.set_result(fn(*args, **kwargs))
+        except BaseException as e:  # noqa: BLE001
+            f.set_exception(e)
+        return f
+
+
+class DetIOLoop(asyncio.SelectorEventLoop):
+    """A real selector loop (Zarr's IO thread runs it) whose futures and tasks hash to a
+    per-run sequence number instead of their address.
+
+    Zarr drains batches with ``asyncio.as_completed`` / ``asyncio.wait``, which keep futures
+    in sets; with identity hashes the order in which the store sees the chunk writes of one
+    array call depends on memory addresses.
+    """
+
+    def __init__(self):
+        super().__init__()
+        self._det_counter = 0
+        self.set_task_factory(self._det_task_factory)
+        self.set_default_executor(_InlineExecutor(max_workers=1))
+
+    def _next(self):
+        self._det_counter += 1
+        return self._det_counter
+
+    def create_future(self):
+        f = _DetFuture(loop=self)
+        f._det_hash = self._next()
+        return f
+
+    def _det_task_factory(self, loop, coro, **kwargs):
+        t = _DetTask(coro, loop=loop, **kwargs)
+        t._det_hash = self._next()
+        return t
+
+    def reset_counter(self):
+        self._det_counter = 0
+
+
+def install_deterministic_zarr_loop():
+    import zarr.core.sync as zs
+
+    cur = zs.loop[0]
+    if isinstance(cur, DetIOLoop):
+        return cur
+    with zs._get_lock():
+        if cur is not None:
+            try:
+                cur.call_soon_threadsafe(cur.stop)
+            except Exception:  # noqa: BLE001
+                pass
+        new_loop = DetIOLoop()
+        zs.loop[0] = new_loop
+        th = threading.Thread(target=new_loop.run_forever, name="zarr_io", daemon=True)
+        th.start()
+        zs.iothread[0] = th
+    return new_loop
